@@ -280,6 +280,7 @@ def body_hist(cube, **kw):
     k = cube['k']
     bits = {b: bool(kw[b]) for b in ('x2', 'l01', 'l12', 'l00', 'pk', 'att')}
     bits['ps'] = bool(kw['ps']) if 'ps' in kw else False
+    bits['nm'] = bool(kw['nm']) if 'nm' in kw else False
     ops = []
     for s in range(k):
         o = idx(kw['o%d' % s], len(OPS))
@@ -295,7 +296,7 @@ def body_hist(cube, **kw):
         ab = Abs()
         slots = []
         for i in range(3 if bits['x2'] else 2):
-            a = lcf.ns.N(name='a%d' % i)
+            a = lcf.ns.N(name=('a0:5' if (i == 1 and bits['nm']) else 'a%d' % i))
             m.add_asset(a)
             ab.assets.append({'obj': a, 'id': int(a.id), 'name': str(a.name)})
             ab.ever_ids.append(int(a.id)); ab.ever_names.append(str(a.name))
@@ -333,13 +334,13 @@ def body_hist(cube, **kw):
 
 def queries(tier):
     k = 1 if tier == 'quick' else 2
-    ps = [B(b) for b in ('x2', 'l01', 'l12', 'l00', 'pk', 'att', 'ps')]
+    ps = [B(b) for b in ('x2', 'l01', 'l12', 'l00', 'pk', 'att', 'ps', 'nm')]
     for s in range(k):
         ps += [I('o%d' % s, 0, len(OPS) - 1), I('x%d' % s, 0, 4), I('y%d' % s, 0, 3), I('z%d' % s, 0, 1)]
     wit = []
     for o in range(len(OPS)):
         w = {p.name: (1 if p.typ == 'int' else True) for p in ps}
-        w.update({'o0': o, 'pk': False, 'ps': (o % 2 == 1), 'l12': (o % 2 == 0)})
+        w.update({'o0': o, 'pk': False, 'ps': (o % 2 == 1), 'l12': (o % 2 == 0), 'nm': False})
         if k > 1:
             w['o1'] = 9 if o == 1 else (o + 1) % len(OPS)
         wit.append(({'k': k}, w))
@@ -360,8 +361,14 @@ def queries(tier):
                         pre=['y0 == 1 and z0 == 0', 'x1 == x0', 'l12 == l01 and not l00 and not pk'], split=['x0'], timeout=600,
                         witnesses=[({'k': 2, '_fixed': {'o0': 0, 'o1': 0}}, w3)],
                         bound='add_asset rejected for its duplicate name (every explicit id) followed by add_asset with the same id: a raising call leaves no trace'))
+        ps4 = [B(b) for b in ('x2', 'l01', 'att')] + [I('x0', 0, 4), I('x1', 0, 4), I('y1', 0, 3), I('z1', 0, 1)]
+        w4 = {'x2': True, 'l01': True, 'att': False, 'x0': 1, 'x1': 0, 'y1': 0, 'z1': 1}
+        qs.append(Query(name='attadd', body=body_hist, params=ps4, cubes=[{'k': 2, '_fixed': {'o0': 5, 'o1': 0, 'l12': False, 'l00': False, 'pk': False}}],
+                        pre=['x0 <= 2'], timeout=600, witnesses=[({'k': 2, '_fixed': {'o0': 5, 'o1': 0, 'l12': False, 'l00': False, 'pk': False}}, w4)],
+                        bound='add_attacker with id None / 0 / 7 followed by add_asset with every id/name pick (assets and attackers draw ids from one counter)'))
     return qs + [Query(name='hist', body=body_hist, params=ps, cubes=[{'k': k}], split=['o0', 'x0'] if k == 1 else ['o0', 'o1'],
-                       pre=['not ps or (l00 and x2 and not pk and not l12)'] if k == 1 else ['x2 and att', 'not ps or (l00 and not pk and not l12)'],
+                       pre=['not ps or (l00 and x2 and not pk and not l12)', 'not nm or (not l12 and not l00 and not pk)'] if k == 1 else
+                       ['x2 and att', 'not ps or (l00 and not pk and not l12)', 'not nm or (not l12 and not l00 and not pk)'],
                   timeout=600 if tier == 'quick' else 1700, witnesses=wit,
                   bound='language L_MINI (type N, self-association PQ(p,q)); pre-state from 7 bits (third asset, links 0-1, 1-2, self-link 0-0 alone or with other members in both fields, one association '
                         'holding two assets in one field, attacker with an entry point), built through the API; then every sequence of %d operation(s) from %s '
